@@ -216,14 +216,28 @@ func c09Two(r *ev.Run, rep *scopeReport, g c09Grid, border string, dist int64, b
 	if outside {
 		rep.Nontrivial++
 	}
+	// the id alone, and (where there is a shallower id) together with id 0 in both orders; keep-points-and-lines off and on
+	idSets := [][]int{{g.ID}}
+	if g.ID > 0 {
+		idSets = append(idSets, []int{0, g.ID}, []int{g.ID, 0})
+	}
+	for _, ids := range idSets {
+		for _, keep := range []bool{false, true} {
+			c09Judge(r, rep, g, border, dist, ringNo, idx, poly, outside, ids, keep)
+		}
+	}
+}
+
+func c09Judge(r *ev.Run, rep *scopeReport, g c09Grid, border string, dist int64, ringNo, idx int, poly geom.Polygon, outside bool, ids []int, keep bool) {
+	px := g.Pixel
 	var results [2]map[int][]geom.Polygon
 	for k, ignore := range []bool{false, true} {
-		cfg := snap.Config{IgnoreOutsideGrid: ignore}
+		cfg := snap.Config{IgnoreOutsideGrid: ignore, KeepPointsAndLines: keep}
 		var res map[int][]geom.Polygon
 		var pan any
 		func() {
 			defer func() { pan = recover() }()
-			res = snap.SnapPolygon(poly, g.TMS, []int{g.ID}, cfg)
+			res = snap.SnapPolygon(poly, g.TMS, ids, cfg)
 		}()
 		rep.Calls++
 		rep.Transitions++
@@ -233,7 +247,7 @@ func c09Two(r *ev.Run, rep *scopeReport, g c09Grid, border string, dist int64, b
 			oge := new(pointindex.OutsideGridError)
 			isOGE = errors.As(err, oge)
 		}
-		got := fmt.Sprintf("panic=%v result-keys=%d", pan, len(res))
+		got := fmt.Sprintf("ids=%v keep=%v panic=%v result-keys=%d", ids, keep, pan, len(res))
 		mk := func() c09Case {
 			return c09Case{Grid: g.Name, ID: g.ID, Border: border, Offset: dist, Ring: ringNo, Index: idx, Ignore: ignore, Polygon: poly, Outside: outside, Got: got}
 		}
